@@ -354,6 +354,12 @@ pub fn build(root: &Node, cfg: &LayoutCfg, rng: &mut Rng) -> Vec<u8> {
     le32(&mut img, 40, if cfg.v4 { n_dir_sectors as u32 } else { 0 });
     le32(&mut img, 44, n_fat as u32);
     le32(&mut img, 48, dir_chain[0]);
+    // MS-CFB 2.2: the transaction signature number is a sequence number a writer with transaction support
+    // increments on every commit (all zeroes only "if file transactions are not implemented"): readers ignore it
+    if rng.below(3) == 0 {
+        let v = 1 + (rng.next() as u32 % 100_000);
+        le32(&mut img, 52, v);
+    }
     le32(&mut img, 56, 4096);
     le32(&mut img, 60, minifat_chain.first().copied().unwrap_or(END));
     le32(&mut img, 64, n_minifat_sectors as u32);
